@@ -68,22 +68,22 @@ func init() {
 	register(PropertyMeta{
 		ID:          "C01",
 		Level:       "other",
-		Explanation: "TODO",
+		Explanation: "The expression writer is abstracted, by the path-sensitive fact engine, into a grammar of everything it can print (constant texts, quoted names/strings, raw values with their origin, and holes = calls to other writers, each with the node kinds that can reach it and the bracket depth). Decided on that derived grammar: (closed) every production gets a class Closed/Signed/Open from the SQL operators it writes at nesting depth 0 (fixpoint over the mutually recursive writers, including which kinds writeExpressionMaybeParen/Closed pass through bare, read from their own switches and from needsParens of every table row); every hole gets a required class from its neighbours (directly after an unspaced sign or before `[`: Closed; next to an infix/keyword operator: at most Signed); provided must not exceed required, for every kind that can flow there; (needsparens) a built-in whose rewrite is not Closed has needsParens; (unwrap) every paren-unwrapping loop continues with the inner expression; (optable) every binary operator the parser can build has a translation, binaryOps spells each operator as SQL does, == and != are wrapped in coalesce(..., FALSE) outside join mode, =~ and !~ lower both operands; (builtins) each documented built-in has the documented rewrite skeleton with each argument once and in order, other functions are written name(args in order). Not decided: that SQL computes the same value on every row (needs the semantics of both languages).",
 		Assumptions: commonAssumptions,
-		Rules:       []string{"C01/closed", "C01/needsparens"},
-	}, ruleC01Closed)
+		Rules:       []string{"C01/closed", "C01/needsparens", "C01/unwrap", "C01/optable", "C01/builtins"},
+	}, ruleC01Closed, ruleC01Unwrap, func(p *Program, r *Run) { ruleOpTables(p, r, "C01") }, ruleC01Builtins)
 	register(PropertyMeta{
 		ID:          "C04",
 		Level:       "other",
-		Explanation: "TODO",
+		Explanation: "On the derived output grammar: (taint) every non-constant text written into the SQL (outside the two sanitizers) has an allowed origin decided with path facts - a scope/constant-table lookup, a literal's value under the fact Kind == TokenNumber, a call's function name, already assembled SQL, or a %T/%d/%s-of-TokenKind format operand; anything else that carries PQL source text is reported; (handquote) no constant opens or closes a quote by hand; (escape) for quoteIdentifier and quoteSQLString the delimiter and the escape set are recovered from the per-byte branch facts and must contain the quote character (doubled) and the backslash (doubled), ClickHouse's escape character inside both quoted forms; (numbers) every number token takes its value from normalizeNumberValue, FormatUint(.,10) or the constant 0. Not decided: decoding of each SQL token by a real SQL lexer for all byte contents, numeric value preservation.",
 		Assumptions: commonAssumptions,
 		Rules:       []string{"C04/taint", "C04/handquote", "C04/escape", "C04/numbers"},
 	}, ruleC04)
 	register(PropertyMeta{
 		ID:          "C05",
 		Level:       "other",
-		Explanation: "TODO",
+		Explanation: "On the derived output grammar: (balance) every constant SQL text lexes cleanly with the checker's SQL token table, bracket depth ((), [], CASE/END) never goes negative on any abstract path and is zero at every success return of an emitting function and at every builder hand-off (String()), path-sensitively (correlated branches such as the innerunique parentheses are followed); (semicolon) exactly one constant contains ';' and it is Compile's final write; (dead) each of the six `unhandled/unsupported` placeholders sits in a default/else branch whose alternatives cover everything that can be constructed: Expr implementers vs writer cases, operators storable into a subquery vs (*subquery).write cases, literal kinds / sign kinds / binary operator kinds constructible by the parser vs handled ones, data sources, statements. Not decided: that the text parses under ClickHouse for every accepted program; CTE naming/usage.",
 		Assumptions: commonAssumptions,
-		Rules:       []string{"C05/balance", "C05/semicolon"},
-	}, ruleC05Balance)
+		Rules:       []string{"C05/balance", "C05/semicolon", "C05/dead"},
+	}, ruleC05Balance, func(p *Program, r *Run) { ruleOpTables(p, r, "C05") })
 }
